@@ -493,6 +493,8 @@ pub struct GenParams {
   pub w_wasm: u32,
   pub specials: bool,
   pub attrs: bool,
+  /// only `type: "json"`, and only on imports of `.json` targets
+  pub attrs_json_only: bool,
   pub exotic_forms: bool,
   pub source_maps: bool,
 }
@@ -511,6 +513,7 @@ impl Default for GenParams {
       w_wasm: 1,
       specials: true,
       attrs: true,
+      attrs_json_only: false,
       exotic_forms: true,
       source_maps: true,
     }
@@ -633,8 +636,15 @@ pub fn target_text(p: &GenParams, referrer: &str, t: u16, rel: bool) -> String {
 
 fn build_item(p: &GenParams, referrer: &str, lang: Lang, r: &RawItem) -> Item {
   let spec = target_text(p, referrer, r.target, r.rel);
-  let attr = if p.attrs {
-    ATTRS[r.attr as usize % ATTRS.len()].map(|s| s.to_string())
+  let attr = if p.attrs_json_only {
+    spec.ends_with(".json").then(|| "json".to_string())
+  } else if p.attrs {
+    if spec.ends_with(".json") && r.attr % 4 != 0 {
+      // JSON targets are mostly requested the way they must be
+      Some("json".to_string())
+    } else {
+      ATTRS[r.attr as usize % ATTRS.len()].map(|s| s.to_string())
+    }
   } else {
     None
   };
@@ -912,6 +922,36 @@ pub fn unify_attrs(world: &mut World, extra_plain: &[String]) {
 
 /// The key under which "imports of one target" are grouped: the URL the
 /// specifier resolves to by plain URL resolution (falls back to the text).
+/// Final targets every request of which carries `type: "json"` (requests are
+/// followed through the world's redirects and aliases).
+pub fn json_class_targets(world: &World) -> std::collections::BTreeSet<String> {
+  let mut with: std::collections::BTreeSet<String> = Default::default();
+  let mut without: std::collections::BTreeSet<String> = Default::default();
+  for (referrer, e) in &world.entries {
+    let Entry::Src { items, .. } = e else { continue };
+    for it in items {
+      let (spec, attr) = match it {
+        Item::Import { spec, attr, .. } | Item::SideEffect { spec, attr } | Item::Dynamic { spec, attr, .. } => (spec, attr.clone()),
+        Item::ExportFrom { spec, .. } => (spec, None),
+        _ => continue,
+      };
+      let mut k = resolve_key(referrer, spec);
+      for _ in 0..40 {
+        match world.entries.get(&k) {
+          Some(Entry::Redirect { to }) | Some(Entry::Alias { to }) => k = to.clone(),
+          _ => break,
+        }
+      }
+      if attr.as_deref() == Some("json") {
+        with.insert(k);
+      } else {
+        without.insert(k);
+      }
+    }
+  }
+  with.difference(&without).cloned().collect()
+}
+
 pub fn resolve_key(referrer: &str, spec: &str) -> String {
   for (bare, to) in RESOLVER_TABLE {
     if spec == *bare {
